@@ -27,6 +27,9 @@ def _lib_name(prog: Program, fn: Func, call: ast.Call) -> Optional[str]:
     return d
 
 
+LATER_RULES = ' Later rules: R11.3 also demands that restored spellings are drawn from a collection validated against the value; (R11.4) the minimum indentation over all lines is only used in a dedent/indent inverse pair.'
+
+
 def check(prog: Program, tier: str) -> Result:
     res = Result(
         "C11",
@@ -47,6 +50,7 @@ def check(prog: Program, tier: str) -> Result:
             "literal-aware stages themselves (black's equivalence)."),
         rule_text="instances = text-transformation calls in functions reachable from format_code; non-trivial = operand is the whole module text",
     )
+    res.explanation += LATER_RULES
     res.trusted_base = ["CPython ast", "sa/textflow.py provenance rules (seeds: first parameter of @processing.fix rules and format_code)", "sa/callgraph.py"]
     tf = TextFlow(prog)
     reach = CallGraph(prog).reachable([("main", "format_code")])
